@@ -350,6 +350,10 @@ class ProcessRunner(Runner, ABC):
                 storage=storage
             )
         finally:
+            # Log captured output before the result is handed back, so
+            # that the main process receives it ahead of the result.
+            sys.stdout.flush()
+            sys.stderr.flush()
             process_event_queue.put(ProcessEndEvent(
                 task_name=task_name,
             ))
@@ -368,6 +372,9 @@ class ProcessRunner(Runner, ABC):
     def wait(self, *, timeout_seconds: Optional[float]) -> Iterator[tuple[Task, ResultMeta | BaseException]]:
         self._consume_log_queue()
         done, _ = self.executor.wait(list(self.future_to_task.keys()), timeout_seconds=timeout_seconds)
+        # Handle logs emitted by tasks before they completed (there
+        # will be no later call to wait() after the last task).
+        self._consume_log_queue()
         for future in done:
             task = self.future_to_task[future]
             if future.cancelled:
